@@ -277,6 +277,17 @@ def check(ctx):
             if isinstance(b, tuple) and b[0] in ("attr", "encbuf") and (b[0] == "encbuf" or b[2] == "encoded"):
                 npatch += 1
                 ok = e.a["key"] == ("const", 0) and e.a["op"] == "BitOr" and e.a["val"] in (("const", 0), ("const", 8))
+                # the DUP flag exists only for PUBLISH in 3.1.1: for the other stored packets the patch must sit under the 3.1 test
+                from .c08 import version_cond
+                obj = b[1]
+                tf = ent.func.qual if ent.kind == "TIMER" else None
+                kinds = {c.split(".")[-1] for c in types(a).class_of(obj, cat.eng, timer_func=tf)}
+                if kinds and "PUBLISH" not in kinds:
+                    gated = version_cond(e.conds) is True
+                    ctx.ob("S6", "%s DUP bit of a stored %s only under protocol 3.1 (%s)" % (cls_short(cls.qual), "/".join(sorted(kinds)), e.func.split(".")[-1]),
+                           gated, where=where(e), function=e.func, construct="%s/dup-gating" % e.func,
+                           msg="byte 0 of a stored %s is or-ed with the DUP bit without the `version == 3.1` test: under 3.1.1 the flag bits of this "
+                               "packet type are reserved (a re-sent PUBREL would go out as 0x6A)" % "/".join(sorted(kinds)))
                 ctx.ob("S6", "stored packet patched only at byte 0 with dup<<3 (%s)" % e.func.split(".")[-1], ok, where=where(e), function=e.func,
                        construct="%s/patch" % e.func, nontrivial=False,
                        msg="already-encoded packet modified at index %s with %s %s" % (show(e.a["key"]), e.a["op"], show(e.a["val"])))
